@@ -325,7 +325,7 @@ def run(ctx):
                 "forces the discrete branch while staying on the uniform's support), all words over uniform letters {0,0.5,1-} for the neighbour propagators' internal draws; "
                 "stepped one propagate() at a time, then block epilogue, then a second block; state = (class, setting, step, walker)")
     ctx.assume("the block epilogue (QR, energy with capping, shift update) is replayed with public calls exactly as sampler._block_scan does; the real sampler is also run once per setting for the killed fraction")
-    ctx.pmap(job, configs(ctx.tier, ctx.seed))
+    ctx.pmap(job, configs(ctx.tier, ctx.seed), tasks_per_child=2)
     ctx.require_guard("walkers_died", "walkers_survived", "sampler_blocks")
 
 
